@@ -18,11 +18,13 @@ mod c13;
 mod c14;
 mod c15;
 mod c19;
+mod c20;
 mod drive;
 mod mc;
 mod pkt;
 mod refstate;
 mod report;
+mod sched;
 mod simnet;
 mod stateexp;
 mod strat;
@@ -63,6 +65,7 @@ fn main() {
         "C14" => c14::run(&args),
         "C15" => c15::run(&args),
         "C19" => c19::run(&args),
+        "C20" => c20::run(&args),
         other => {
             eprintln!("MACHINERY: unknown property {other}");
             2
